@@ -180,6 +180,8 @@ def write_evidence(prop, tier, seed, agg, wall_s, rule, extra=None, assumptions=
         "runs_per_hour": int(agg.runs / wall_s * 3600) if wall_s > 0 else 0,
         "seeds_per_hour": int(agg.runs / wall_s * 3600) if wall_s > 0 else 0,
         "simulated_seconds": round(agg.sim_seconds, 3),
+        "simulated_seconds_note": "sum over runs of the simulated clock at the end of the run; 0 for properties whose "
+                                  "code reads no clock (C17, C18: only the order of events matters there)",
         "fault_kinds_fired": dict(sorted(agg.stats.items())),
         "probes_hit": dict(sorted(agg.probes.items())),
         "distinct_interleavings": len(agg.digests),
